@@ -400,6 +400,13 @@ func bufObj(s *State, v Value) (*Obj, int) {
 			return nil, 0
 		}
 		o := s.heap[p.Obj]
+		if o.Kind == kCell && len(p.Path) == 0 {
+			if _, isStruct := o.Val.(*StructV); isStruct {
+				// a bytes.Buffer that lives in a variable (package-level or local `var b bytes.Buffer`) and has not
+				// been used yet: its zero value is an empty buffer
+				o.Kind, o.B, o.R, o.Val = kBuffer, EmptyBytes(), CI(0), nil
+			}
+		}
 		if o.Kind != kBuffer {
 			panic(engineUnsupported("bytes.Buffer method on a non-buffer object"))
 		}
